@@ -25,7 +25,7 @@ def plans(quick):
                  sim=dict(num=60, depth=12)),
             # ~pattern inputs and optional inputs that some configurations provide and others do not
             dict(family='wiring',
-                 gen=dict(steps=4, slots=1, lists=[['w1'], ['w3'], ['w1', 'w2'], ['w2', 'w3']]), cover_limit=120, walks=40,
+                 gen=dict(steps=4, slots=1, lists=[['w1'], ['w3'], ['w4'], ['w1', 'w2'], ['w2', 'w4']]), cover_limit=120, walks=40,
                  sim=dict(num=60, depth=12)),
         ]
     return [
